@@ -217,7 +217,7 @@ def run(tier, selftest=False, only=None):
 # ---- histories of one script object (specs/ScriptEdit.tla): TLC generates setter sequences, the object is driven along them ----
 def script_history_checks(rep, tier, seed, rng):
     from strengths import (RDNetwork, RDScript, RDSystem, Species, UnitArray, UnitValue, UnitsSystem, rdscript_from_dict, rdscript_to_dict)
-    depth = 4 if tier == "quick" else 5
+    depth = 4 if tier == "quick" else 6
     tlc.write_cfg("MC_ScriptEdit_d", open(tlc.workdir() + "/MC_ScriptEdit.cfg").read().replace("Depth = 3", "Depth = %d" % depth))
     r = tlc.run("MC_ScriptEdit", cfg="MC_ScriptEdit_d", timeout=3000, heap="8g")
     rep.add_tlc("MC_ScriptEdit (every history of %d setter calls on one script object)" % depth, r)
